@@ -75,13 +75,16 @@ class InjectLatency:
         if link is None:
             raise ValueError(f"No link found: {self.source_name} -> {self.dest_name}")
 
-        original_latency = link.latency
         extra_dist = ConstantLatency(self.extra_ms / 1000.0)
         src = self.source_name
         dst = self.dest_name
+        layer: _CompoundLatency | None = None
 
         def activate(e: Event) -> None:
-            link.latency = _CompoundLatency(original_latency, extra_dist)
+            nonlocal layer
+            # Layer on whatever is in effect now so overlapping faults stack
+            layer = _CompoundLatency(link.latency, extra_dist)
+            link.latency = layer
             logger.info(
                 "[FaultInjection] Injected +%sms latency on %s -> %s at %s",
                 self.extra_ms,
@@ -91,7 +94,17 @@ class InjectLatency:
             )
 
         def deactivate(e: Event) -> None:
-            link.latency = original_latency
+            # Remove only this fault's layer; other faults may still be active
+            if layer is None:
+                return
+            if link.latency is layer:
+                link.latency = layer._base
+            else:
+                outer = link.latency
+                while isinstance(outer, _CompoundLatency) and outer._base is not layer:
+                    outer = outer._base
+                if isinstance(outer, _CompoundLatency):
+                    outer._base = layer._base
             logger.info(
                 "[FaultInjection] Restored latency on %s -> %s at %s",
                 src,
